@@ -129,3 +129,62 @@ func VH_C13_api() {
 		}
 	}
 }
+
+// VH_C13_chain: "a chain of And refinements whose last comparison is on an
+// indexed field": the first comparison is on the indexed field A, the last on
+// the indexed field B (arbitrary values of both, so the two orders may
+// disagree): Collect follows B (non-increasing), Reverse mirrors it, Limit(n)
+// is a prefix and One the first element; also with a third refinement on an
+// un-indexed field in between.
+func VH_C13_chain() {
+	root := vTempDir()
+	db := Open(root)
+	LowercaseNames = false
+	vAssert("C13.chain.create", db.Create(&vTwoU{}, DefaultSchema) == nil)
+	n := vLen("n", 2, vBound("N", 3))
+	for k := 0; k < n; k++ {
+		o := &vTwoU{A: vInt64("A"), K: int64(k), B: vInt64("B"), Q: "q" + string(rune('a'+k))}
+		vAssert("C13.chain.insert", db.InsertOrUpdate(o) == nil)
+	}
+	op1 := vhOps[vChoice("_op1", len(vhOps))]
+	op2 := []string{">=", "!=", "<="}[vChoice("_op2", 3)]
+	p1, p2 := vInt64("p1"), vInt64("p2")
+	mid := vBound("MID", 1) > 0 && vChoice("mid", 2) == 1
+	mk := func() *Search {
+		s := db.Search(&vTwoU{}, "A", op1, p1)
+		if mid {
+			s = s.And("K", ">=", int64(0)) // K is unique (indexed) and always matches
+		}
+		return s.And("B", op2, p2)
+	}
+	full, err := mk().Collect()
+	vAssert("C13.chain.collect", err == nil)
+	for j := 1; j < len(full); j++ {
+		vAssert("C13.chain.nonincreasing_in_last_field", full[j-1].(*vTwoU).B >= full[j].(*vTwoU).B)
+	}
+	switch vChoice("what", 3) {
+	case 0:
+		rev, err := mk().Reverse().Collect()
+		vAssert("C13.chain.reverse.ok", err == nil && len(rev) == len(full))
+		for j := 1; j < len(rev); j++ {
+			vAssert("C13.chain.reverse.nondecreasing", rev[j-1].(*vTwoU).B <= rev[j].(*vTwoU).B)
+		}
+	case 1:
+		lim, err := mk().Limit(1).Collect()
+		vAssert("C13.chain.limit.ok", err == nil)
+		if len(full) > 0 {
+			vAssert("C13.chain.limit.prefix", len(lim) == 1 && lim[0].UUID() == full[0].UUID())
+		}
+	case 2:
+		o, err := mk().Reverse().One()
+		if len(full) > 0 {
+			vAssert("C13.chain.one.ok", err == nil)
+			if err == nil {
+				// the smallest B of the matches
+				for j := range full {
+					vAssert("C13.chain.reverse_one_is_min", o.(*vTwoU).B <= full[j].(*vTwoU).B)
+				}
+			}
+		}
+	}
+}
